@@ -12,12 +12,17 @@ Inductive wf_tlvs : N -> bytes -> Prop :=
 | wt_cons ctx (e : elem) rest : fst e < two64 -> N.of_nat (length (snd e)) < two64 ->
     (forall c, nested ctx (fst e) = Some c -> wf_tlvs c (snd e)) -> wf_tlvs ctx rest -> wf_tlvs ctx (enc_elem e ++ rest).
 
+Lemma bytes_prefix_app p r : bytes_prefix p (p ++ r) = true.
+Proof. induction p as [|x p IH]; [reflexivity|]. cbn [app bytes_prefix]. rewrite N.eqb_refl. exact IH. Qed.
+Lemma tl_dec_min_enc n r : n < two64 -> tl_dec_min (tl_enc n ++ r) = Some (n, r).
+Proof. intros H. unfold tl_dec_min. rewrite tl_dec_enc by exact H. rewrite bytes_prefix_app. reflexivity. Qed.
+
 Lemma walk_nonnil f ctx b : b <> [] ->
   walk (S f) ctx b =
-  match tl_dec b with
+  match tl_dec_min b with
   | None => false
   | Some (t, r1) =>
-      match tl_dec r1 with
+      match tl_dec_min r1 with
       | None => false
       | Some (l, r2) =>
           if N.of_nat (length r2) <? l then false
@@ -35,7 +40,7 @@ Proof.
     pose proof (enc_elem_ge2 e) as Hge.
     rewrite walk_nonnil.
     2:{ intros Eb. apply (f_equal (@length N)) in Eb. rewrite app_length in Eb. simpl in Eb. lia. }
-    unfold enc_elem at 1. rewrite <- !app_assoc. rewrite tl_dec_enc by exact Ht. rewrite tl_dec_enc by exact Hl.
+    unfold enc_elem at 1. rewrite <- !app_assoc. rewrite tl_dec_min_enc by exact Ht. rewrite tl_dec_min_enc by exact Hl.
     rewrite !app_length. replace (N.of_nat (length (snd e) + length rest) <? N.of_nat (length (snd e))) with false by lia.
     rewrite Nat2N.id. rewrite firstn_app_le by lia. rewrite firstn_all. rewrite skipn_app_ge by lia. rewrite Nat.sub_diag. cbn [skipn].
     rewrite app_length, enc_elem_length in Hf.
@@ -126,8 +131,8 @@ Qed.
 
 Lemma single_tlv_elem (e : elem) : elem_wf e -> single_tlv (enc_elem e) = true.
 Proof.
-  intros [Ht Hl]. unfold single_tlv, enc_elem. rewrite tl_dec_enc by exact Ht.
-  rewrite <- (app_nil_r (tl_enc (N.of_nat (length (snd e))) ++ snd e)), <- app_assoc. rewrite tl_dec_enc by (unfold two64; lia).
+  intros [Ht Hl]. unfold single_tlv, enc_elem. rewrite tl_dec_min_enc by exact Ht.
+  rewrite <- (app_nil_r (tl_enc (N.of_nat (length (snd e))) ++ snd e)), <- app_assoc. rewrite tl_dec_min_enc by (unfold two64; lia).
   rewrite app_nil_r. apply N.eqb_refl.
 Qed.
 
